@@ -56,6 +56,7 @@ type result struct {
 	Violations []violation     `json:"violations"`
 	Log        []string        `json:"log"`
 	Plan       json.RawMessage `json:"plan"`
+	Plans      map[string]json.RawMessage `json:"plans"`
 	Infra      string          `json:"infra"`
 	ShrunkFrom int             `json:"shrunk_from"`
 	ShrunkRuns int             `json:"shrunk_runs"`
@@ -152,6 +153,7 @@ func main() {
 	procs := fs.Int("procs", 0, "override number of processes")
 	keep := fs.Bool("keep", false, "keep scratch directory")
 	noEvidence := fs.Bool("no-evidence", false, "do not write evidence (development)")
+	noReplayFiles := fs.Bool("no-replay-files", false, "write replay files under the scratch area instead of /verif/replays (development)")
 	fs.Parse(os.Args[2:])
 	seed := *seedF
 	if seed < 0 {
@@ -163,6 +165,9 @@ func main() {
 		}
 	}
 	d := &driver{tier: *tier, seed: seed, runs: *runs, procs: *procs, keep: *keep, noEvidence: *noEvidence}
+	if *noReplayFiles {
+		d.replayDir = "/var/tmp/vf-dev-replays"
+	}
 	os.Exit(d.run(cmd, *replay))
 }
 
@@ -185,6 +190,7 @@ type driver struct {
 	procs      int
 	keep       bool
 	noEvidence bool
+	replayDir  string
 	scratch    string
 	gen        *genOut
 	start      time.Time
@@ -480,6 +486,8 @@ func (d *driver) check(spec *propSpec) int {
 	type vgroup struct {
 		v     violation
 		first *result
+		plan  json.RawMessage
+		firstShrunk int
 		count int
 	}
 	groups := map[string]*vgroup{}
@@ -499,16 +507,10 @@ func (d *driver) check(spec *propSpec) int {
 				keys = append(keys, v.Key)
 			}
 			g.count++
-			// prefer a run whose stored plan was minimised for exactly this key
-			if len(r.Plan) > 0 {
-				var ph struct {
-					Key string `json:"key"`
-				}
-				json.Unmarshal(r.Plan, &ph)
-				if g.first == nil || (ph.Key == v.Key && r.ShrunkRuns > 0 && g.first.ShrunkRuns == 0) {
-					if ph.Key == v.Key || g.first == nil {
-						g.first = r
-					}
+			// prefer a run whose plan was minimised for this key
+			if pl, ok := r.Plans[v.Key]; ok && len(pl) > 0 {
+				if g.first == nil || (r.ShrunkRuns > 0 && g.firstShrunk == 0) {
+					g.first, g.plan, g.firstShrunk = r, pl, r.ShrunkRuns
 				}
 			}
 		}
@@ -525,17 +527,20 @@ func (d *driver) check(spec *propSpec) int {
 			continue
 		}
 		// a new violation: write the replay file, verify it in a fresh process
-		if g.first == nil || len(g.first.Plan) == 0 {
+		if g.first == nil || len(g.plan) == 0 {
 			return d.infra("violation %s without a plan", k)
 		}
 		dir := filepath.Join(verifDir, "replays", spec.ID)
+		if d.replayDir != "" {
+			dir = filepath.Join(d.replayDir, spec.ID)
+		}
 		os.MkdirAll(dir, 0o755)
 		name := fmt.Sprintf("%d-%s.json", g.first.Seed, sanitize(k))
 		path := filepath.Join(dir, name)
 		var pretty bytes.Buffer
-		json.Indent(&pretty, g.first.Plan, "", " ")
+		json.Indent(&pretty, g.plan, "", " ")
 		os.WriteFile(path, pretty.Bytes(), 0o644)
-		j := &job{Prop: spec.ID, Tier: d.tier, Mode: "replay", Replay: g.first.Plan}
+		j := &job{Prop: spec.ID, Tier: d.tier, Mode: "replay", Replay: g.plan}
 		rr, perr := d.runProc(bin, j, 900, 10*time.Minute, spec.Race)
 		ok := false
 		for _, r := range rr {
@@ -561,6 +566,9 @@ func (d *driver) check(spec *propSpec) int {
 				continue
 			}
 			dir := filepath.Join(verifDir, "replays", spec.ID)
+			if d.replayDir != "" {
+				dir = filepath.Join(d.replayDir, spec.ID)
+			}
 			os.MkdirAll(dir, 0o755)
 			path := filepath.Join(dir, "race-"+sanitize(rr.Key)+".txt")
 			os.WriteFile(path, []byte(rr.Text), 0o644)
